@@ -1,7 +1,7 @@
 """JanitorCtl family (last clause of C13, 'however quickly' clause of C19): TLC checks the mailbox protocol between the
 configuration property and the janitor, enumerates every visible schedule (changes x hold/release of the janitor), the
 real janitor is driven through them and TLC judges the interval it ends up running on."""
-import json, os, shutil
+import re, json, os, shutil
 from concurrent.futures import ThreadPoolExecutor
 import vlib
 
@@ -36,16 +36,55 @@ def run(maxlen, backend="memory", procs=8, seqs=None):
             i, ch = t
             wd = os.path.join(d, "w%d" % i)
             os.makedirs(wd)
-            with open(os.path.join(wd, "in.ndjson"), "w") as fh:
-                for s in ch:
-                    fh.write(json.dumps(s) + "\n")
-            rc, out, err, _ = vlib.run_driver(binp, ["-backend", backend, "-in", "in.ndjson", "-out", "trace.ndjson"], cwd=wd, timeout=1500)
-            if rc != 0 or "jandrv done" not in out:
-                raise vlib.Inconclusive("jandrv failed (rc=%s): %s" % (rc, err[-1200:]))
-            return [json.loads(x) for x in open(os.path.join(wd, "trace.ndjson"))]
+            def drive(sub, tag):
+                with open(os.path.join(wd, "in.ndjson"), "w") as fh:
+                    for s in sub:
+                        fh.write(json.dumps(s) + "\n")
+                rc, out, err, _ = vlib.run_driver(binp, ["-backend", backend, "-in", "in.ndjson", "-out", "trace.ndjson"], cwd=wd, timeout=1500)
+                got = []
+                if os.path.exists(os.path.join(wd, "trace.ndjson")):
+                    for x in open(os.path.join(wd, "trace.ndjson")):
+                        try:
+                            got.append(json.loads(x))
+                        except ValueError:
+                            pass
+                ok = rc == 0 and "jandrv done" in out
+                # the process was killed by a panic inside the code under test (its frames are on the stack), not by the driver
+                m = None if ok else re.search(r"^(panic: [^\n]*|fatal error: [^\n]*)\n(?:.*\n)*?(reservoir/\S+)", err, re.M)
+                return ok, got, err, m
+            rest, lines_, died = list(ch), [], []
+            while rest:
+                ok, got, err, m = drive(rest, "all")
+                if ok:
+                    lines_ += got
+                    break
+                if not m:
+                    raise vlib.Inconclusive("jandrv failed: %s" % err[-1200:])
+                seen_s = [ln.get("s") for ln in got if "s" in ln]
+                ids = [s["s"] for s in rest]
+                k = ids.index(seen_s[-1]) if seen_s and seen_s[-1] in ids else 0
+                culprit = None
+                for cand in (k, k + 1):
+                    # which ready channel the janitor's select takes is the runtime's choice: a schedule is given several tries
+                    for attempt in range(8):
+                        if cand >= len(rest) or culprit is not None:
+                            break
+                        ok1, _, err1, m1 = drive([rest[cand]], "one")
+                        if not ok1 and m1:
+                            culprit = cand
+                            died.append({"schedule": rest[cand], "panic": m1.group(1), "in": m1.group(2), "stderr": err1[-1500:]})
+                    if culprit is not None:
+                        break
+                if culprit is None:
+                    raise vlib.Inconclusive("jandrv died (%s) but no single schedule reproduces it" % m.group(1))
+                done_ids = set(ids[:culprit])
+                lines_ += [ln for ln in got if ln.get("s") in done_ids]
+                rest = rest[culprit + 1:]
+            return lines_, died
         with ThreadPoolExecutor(max_workers=procs) as ex:
             parts = list(ex.map(one, enumerate(chunks)))
-        lines = [ln for p in parts for ln in p]
+        lines = [ln for p, _ in parts for ln in p]
+        deaths = [x for _, dd in parts for x in dd]
         errs = [ln for ln in lines if ln.get("err")]
         if errs:
             raise vlib.Inconclusive("jandrv could not drive the janitor: %s" % errs[0])
@@ -57,6 +96,10 @@ def run(maxlen, backend="memory", procs=8, seqs=None):
         r = vlib.tlc_validate("JanitorCtlTrace", tr, tp, timeout=900)
         bys = {s["s"]: s for s in seqlist}
         problems = []
+        for x in deaths:
+            # an accepted interval change after which the process is dead (the janitor goroutine panicked)
+            problems.append({"cats": ["process_died"], "line": 0, "event": {"panic": x["panic"], "in": x["in"]}, "schedule": x["schedule"]["steps"],
+                             "replay_input": [x["schedule"]]})
         for b in r["allbad"]:
             ln = lines[b["line"] - 1]
             problems.append({"cats": b["cats"], "line": b["line"], "event": ln, "schedule": bys[ln["s"]]["steps"], "replay_input": [bys[ln["s"]]]})
@@ -69,7 +112,7 @@ def run(maxlen, backend="memory", procs=8, seqs=None):
         shutil.rmtree(d, ignore_errors=True)
 
 
-def check_part(prop, tier, seed):
+def check_part(prop, tier, seed, only=None):
     """extra run for C13 / C19: returns dict(violations, notes, coverage, traces)"""
     out = {"violations": [], "notes": [], "coverage": {}, "traces": 0}
     ms = mc()
@@ -86,10 +129,15 @@ def check_part(prop, tier, seed):
         seen = set()
         for p in r["problems"]:
             key = tuple(p["cats"])
-            if key in seen:
+            if key in seen or (only and not (set(p["cats"]) & only)):
                 continue
             # reproduce before reporting
             again = run(0, backend, procs=1, seqs=p["replay_input"])
+            if not again["problems"] and "process_died" in p["cats"]:
+                for _ in range(8):
+                    again = run(0, backend, procs=1, seqs=p["replay_input"])
+                    if again["problems"]:
+                        break
             if not again["problems"]:
                 out["notes"].append("janitor schedule %s: mismatch %s did not reproduce alone; not counted" % (p["schedule"], p["cats"]))
                 continue
@@ -104,6 +152,10 @@ def check_part(prop, tier, seed):
 
 def replay(art):
     r = run(0, art.get("backend", "memory"), procs=1, seqs=art["input"])
+    for _ in range(8):
+        if r["problems"] or "process_died" not in art.get("cats", []):
+            break
+        r = run(0, art.get("backend", "memory"), procs=1, seqs=art["input"])
     for p in r["problems"]:
         print("replayed:", p["cats"], p["event"])
     return bool(r["problems"])
